@@ -619,6 +619,9 @@ end
 /-! ## emitted_compiles (partial) -/
 
 /-
+(Since then proved in full in `Props/C14compile.lean::emitted_compiles` / `emitted_files_compile`;
+`emitted_compiles_partial` below is the lex.csv half used there.  The original note follows.)
+
 Full statement (DESIGN §C14), NOT proved in full:
 
   theorem emitted_compiles … :
